@@ -14,6 +14,7 @@ import TE.Lemmas.FamStatAgg
 import TE.Lemmas.FamStatBinned
 import TE.Lemmas.FamStatText
 import TE.Lemmas.FamStatList
+import TE.Lemmas.FamCacheSM
 namespace TE.C01
 open TE
 
@@ -309,6 +310,330 @@ example :
     flatten t = [b₁, b₂, b₃] ∧
       (eval (additive partsAcc (mcRecallStat .macro 3) outA) t).toOption = some [[1, 2, 1], [1, 3, 2], [2, 2, 2]] ∧
       (mcRecallStat .macro 3 (catPair [b₃, b₁, b₂])).toOption = some [[1, 2, 1], [1, 3, 2], [2, 2, 2]] := by
+  decide +kernel
+
+end TE.C01
+
+/-! ## class level: the cache-all and the non-additive classes (TE/Model/FamsCache.lean)
+
+  `FamCache.MergeTreeFn f cat`: for EVERY history tree (`Hist`: any number of shards, empty shards,
+  fresh targets, flat / pairwise / sequential merges, a source merged twice, updates after merges,
+  resets) that runs without error, the state is the samples of the live batches in merge order, it is
+  the state of ONE instance fed those batches, and `compute()` is the functional on their concatenation.
+  `FamCache.MergeTreeAnyOrder f P cat`: moreover `compute()` equals the functional on the concatenation
+  of ANY non-empty valid stream `bs` whose samples are a permutation of the live samples, and equals
+  `compute()` of one instance fed `bs` — in particular the single instance that saw the whole stream in
+  stream order, whatever the partition into shards and the merge order were.  `P` is the side
+  condition under which the functional is order-insensitive (C05 / C06 / C07). -/
+namespace TE.C01
+open TE TE.Fams TE.FamCache
+
+/-- BinaryAUROC (any `num_tasks`, weights); order-insensitive for 0/1 targets. -/
+theorem C01_merge_tree_BinaryAUROC (nt : Nat) :
+    MergeTreeFn (binaryAurocC nt) List.flatten ∧
+      MergeTreeAnyOrder (binaryAurocC nt) (BinaryLabels nt) List.flatten :=
+  ⟨mergeTreeFn_of_statCat _ FamStat.statCat_catSamples,
+    mergeTreeAnyOrder _ FamStat.statCat_catSamples (outPerm_binaryAuroc nt)⟩
+
+/-- MulticlassAUROC (every average). -/
+theorem C01_merge_tree_MulticlassAUROC (nc : Nat) (avg : Curve.Avg) :
+    MergeTreeFn (multiclassAurocC nc avg) catPair ∧
+      MergeTreeAnyOrder (multiclassAurocC nc avg) (fun _ => True) catPair :=
+  ⟨mergeTreeFn_of_statCat _ FamStat.statCat_rowSamples,
+    mergeTreeAnyOrder _ FamStat.statCat_rowSamples (outPerm_multiclassAuroc nc avg)⟩
+
+/-- BinaryAUPRC (any `num_tasks`). -/
+theorem C01_merge_tree_BinaryAUPRC (nt : Nat) :
+    MergeTreeFn (binaryAuprcC nt) List.flatten ∧
+      MergeTreeAnyOrder (binaryAuprcC nt) (fun _ => True) List.flatten :=
+  ⟨mergeTreeFn_of_statCat _ FamStat.statCat_catSamples,
+    mergeTreeAnyOrder _ FamStat.statCat_catSamples (outPerm_binaryAuprc nt)⟩
+
+/-- MulticlassAUPRC (every average). -/
+theorem C01_merge_tree_MulticlassAUPRC (nc : Nat) (avg : Curve.Avg) :
+    MergeTreeFn (multiclassAuprcC nc avg) catPair ∧
+      MergeTreeAnyOrder (multiclassAuprcC nc avg) (fun _ => True) catPair :=
+  ⟨mergeTreeFn_of_statCat _ FamStat.statCat_rowSamples,
+    mergeTreeAnyOrder _ FamStat.statCat_rowSamples (outPerm_multiclassAuprc nc avg)⟩
+
+/-- MultilabelAUPRC (every average). -/
+theorem C01_merge_tree_MultilabelAUPRC (nl : Nat) (avg : Curve.Avg) :
+    MergeTreeFn (multilabelAuprcC nl avg) catPair ∧
+      MergeTreeAnyOrder (multilabelAuprcC nl avg) (fun _ => True) catPair :=
+  ⟨mergeTreeFn_of_statCat _ FamStat.statCat_rowSamples,
+    mergeTreeAnyOrder _ FamStat.statCat_rowSamples (outPerm_multilabelAuprc nl avg)⟩
+
+/-- BinaryPrecisionRecallCurve. -/
+theorem C01_merge_tree_BinaryPrecisionRecallCurve :
+    MergeTreeFn binaryPrCurveC catPair ∧ MergeTreeAnyOrder binaryPrCurveC (fun _ => True) catPair :=
+  ⟨mergeTreeFn_of_statCat _ FamStat.statCat_pairSamples,
+    mergeTreeAnyOrder _ FamStat.statCat_pairSamples outPerm_binaryPrCurve⟩
+
+/-- MulticlassPrecisionRecallCurve (`num_classes` given or `None`). -/
+theorem C01_merge_tree_MulticlassPrecisionRecallCurve (nc0 : Option Nat) :
+    MergeTreeFn (multiclassPrCurveC nc0) catPair ∧
+      MergeTreeAnyOrder (multiclassPrCurveC nc0) (fun _ => True) catPair :=
+  ⟨mergeTreeFn_of_statCat _ FamStat.statCat_rowSamples,
+    mergeTreeAnyOrder _ FamStat.statCat_rowSamples (outPerm_multiclassPrCurve nc0)⟩
+
+/-- MultilabelPrecisionRecallCurve. -/
+theorem C01_merge_tree_MultilabelPrecisionRecallCurve (nl : Nat) :
+    MergeTreeFn (multilabelPrCurveC nl) catPair ∧
+      MergeTreeAnyOrder (multilabelPrCurveC nl) (fun _ => True) catPair :=
+  ⟨mergeTreeFn_of_statCat _ FamStat.statCat_rowSamples,
+    mergeTreeAnyOrder _ FamStat.statCat_rowSamples (outPerm_multilabelPrCurve nl)⟩
+
+/-- BinaryRecallAtFixedPrecision. -/
+theorem C01_merge_tree_BinaryRecallAtFixedPrecision (p : Q) :
+    MergeTreeFn (binaryRecallAtPrecisionC p) catPair ∧
+      MergeTreeAnyOrder (binaryRecallAtPrecisionC p) (fun _ => True) catPair :=
+  ⟨mergeTreeFn_of_statCat _ FamStat.statCat_pairSamples,
+    mergeTreeAnyOrder _ FamStat.statCat_pairSamples (outPerm_binaryRecallAtPrecision p)⟩
+
+/-- MultilabelRecallAtFixedPrecision. -/
+theorem C01_merge_tree_MultilabelRecallAtFixedPrecision (p : Q) (nl : Nat) :
+    MergeTreeFn (multilabelRecallAtPrecisionC p nl) catPair ∧
+      MergeTreeAnyOrder (multilabelRecallAtPrecisionC p nl) (fun _ => True) catPair :=
+  ⟨mergeTreeFn_of_statCat _ FamStat.statCat_rowSamples,
+    mergeTreeAnyOrder _ FamStat.statCat_rowSamples (outPerm_multilabelRecallAtPrecision p nl)⟩
+
+/-- AUC (both `reorder` settings): the live points in merge order. -/
+theorem C01_merge_tree_AUC (reorder : Bool) (nt : Nat) : MergeTreeFn (aucC reorder nt) List.flatten :=
+  mergeTreeFn_of_statCat _ FamStat.statCat_catSamples
+
+/- AUC(reorder=True), full statement (FALSE, see `C12.C12_AUC_reorder_tie_witness`):
+     `MergeTreeAnyOrder (aucC true nt) (fun _ => True) List.flatten` -/
+
+/-- AUC(reorder=True): any order of the live points, provided points with equal abscissa coincide. -/
+theorem C01_merge_tree_AUC_reorder_partial (nt : Nat) :
+    MergeTreeAnyOrder (aucC true nt) (DistinctX nt) List.flatten :=
+  mergeTreeAnyOrder _ FamStat.statCat_catSamples (outPerm_auc_reorder nt)
+
+/-- witness of the order dependence with tied abscissae: shard `a` holds `(0,0), (1,1)`, shard `b` holds
+    `(1,2), (3,0)`; merging `b` into `a` gives `5/2`, merging `a` into `b` gives `2`. -/
+theorem C01_AUC_reorder_tie_witness :
+    let a : Hist (List TaskPair) := .update .fresh [([0], [0]), ([1], [1])]
+    let b : Hist (List TaskPair) := .update .fresh [([1], [2]), ([3], [0])]
+    ((eval (aucC true 1).cls (.merge a [b])).toOption.bind fun s => ((aucC true 1).cls.out s).toOption) = some [5 / 2] ∧
+    ((eval (aucC true 1).cls (.merge b [a])).toOption.bind fun s => ((aucC true 1).cls.out s).toOption) = some [2] := by
+  decide +kernel
+
+/-- BinaryBinnedAUROC (any `num_tasks`, any threshold list). -/
+theorem C01_merge_tree_BinaryBinnedAUROC (t : List Q) (nt : Nat) :
+    FamStat.MergeTreeEqFunctionalOrdered (listAcc TaskPair) (binaryBinnedAurocL t nt).stat List.flatten ∧
+      LMergeTreeAnyOrder (binaryBinnedAurocL t nt) (fun _ => True) List.flatten :=
+  ⟨FamStat.mergeTree_ordered_of_statCat _ (listAcc_laws _) FamStat.statCat_catSamples,
+    lMergeTreeAnyOrder _ FamStat.statCat_catSamples (outPerm_binaryBinnedAuroc t nt)⟩
+
+/- MulticlassBinnedAUROC, full statement (FALSE for the code as it is, recorded finding
+   `C06.multiclass_binned_auroc_witness` / `C12.C12_MulticlassBinnedAUROC_order_witness`):
+     `LMergeTreeAnyOrder (mcBinnedAurocL t C) (fun _ => True) catPair` -/
+
+/-- MulticlassBinnedAUROC: the live samples in merge order (order-carrying as it is). -/
+theorem C01_merge_tree_MulticlassBinnedAUROC_partial (t : List Q) (C : Nat) :
+    FamStat.MergeTreeEqFunctionalOrdered (listAcc (List Q × Nat)) (mcBinnedAurocL t C).stat catPair :=
+  FamStat.mergeTree_ordered_of_statCat _ (listAcc_laws _) FamStat.statCat_rowSamples
+
+/-- Wasserstein1D: every history holds the weighted samples of both distributions in merge order
+    (for every `compute`), and `compute()` is `wasserstein_1d` on the concatenation of ANY valid stream
+    holding the same weighted samples in any order = `compute()` of one instance fed that stream. -/
+theorem C01_merge_tree_Wasserstein1D :
+    FamStat.MergeTreeEqFunctionalOrdered (pairAcc (Q × Q) (Q × Q)) wassStat catW ∧
+    (∀ (h : Hist WBatch) (s : List (Q × Q) × List (Q × Q)), eval wassCls h = .ok s →
+      ∀ bs : List WBatch, bs ≠ [] → WValid bs →
+        (wState bs).1.Perm (wState (flatten h)).1 → (wState bs).2.Perm (wState (flatten h)).2 →
+        s = wState (flatten h) ∧
+        wassCls.out s = Agg.wasserstein (catW bs).x (catW bs).y (catW bs).xw (catW bs).yw ∧
+        ∃ s', eval wassCls (single bs) = .ok s' ∧ wassCls.out s' = wassCls.out s) :=
+  ⟨FamStat.mergeTree_ordered_of_statCat _ (pairAcc_laws _ _) statCat_wass,
+    fun h s he bs hne hv h1 h2 => wass_mergeTree_anyOrder h s he bs hne hv h1 h2⟩
+
+/-- PeakSignalNoiseRatio(data_range=None): after any history with a live target element `compute()`
+    is the functional on ALL live data (summed squared error, element count, `max − min` of all live
+    targets — the running range is the global one), and any other history holding the same batches in
+    any order computes the same. -/
+theorem C01_merge_tree_PSNR_auto (h : Hist (List Q × List Q)) (s : Agg.PsnrS)
+    (he : eval (psnrCls none) h = .ok s) (hne : psnrTargets (flatten h) ≠ []) :
+    (psnrCls none).out s = Agg.psnrFn (psnrInputs (flatten h)) (psnrTargets (flatten h)) none ∧
+    ∀ (h' : Hist (List Q × List Q)) (s' : Agg.PsnrS), eval (psnrCls none) h' = .ok s' →
+      (flatten h).Perm (flatten h') → (psnrCls none).out s = (psnrCls none).out s' :=
+  ⟨psnr_merge_tree_auto h s he hne, fun h' s' he' hp => psnr_any_history_auto h h' s s' he he' hp hne⟩
+
+/-- PeakSignalNoiseRatio(data_range = r > 0). -/
+theorem C01_merge_tree_PSNR_fixed (r : Q) (hr : 0 < r) (h : Hist (List Q × List Q)) (s : Agg.PsnrS)
+    (he : eval (psnrCls (some r)) h = .ok s) :
+    (psnrCls (some r)).out s = Agg.psnrFn (psnrInputs (flatten h)) (psnrTargets (flatten h)) (some r) ∧
+    ∀ (h' : Hist (List Q × List Q)) (s' : Agg.PsnrS), eval (psnrCls (some r)) h' = .ok s' →
+      (flatten h).Perm (flatten h') → (psnrCls (some r)).out s = (psnrCls (some r)).out s' :=
+  ⟨psnr_merge_tree_fixed r hr h s he, fun h' s' he' hp => psnr_any_history_fixed r h h' s s' he he' hp⟩
+
+/-- Covariance (batches of `d` columns; shards without rows or with a single row included): `compute()`
+    of any history is `compute` of the `(n, Σx, M2)` summary of all live observations
+    (`C07.cov_compute_eq_def`: their sample mean and unbiased covariance, `ValueError` below two), and any
+    other history whose live observations are a permutation of these computes the same. -/
+theorem C01_merge_tree_Covariance (d : Nat) (h : Hist (Nat × Mat)) (s : Agg.CovS)
+    (he : eval covCls h = .ok s) (hd : ∀ b ∈ flatten h, b.1 = d) :
+    covCls.out s = Agg.covCompute (Agg.covBatch d (AggL.rowsOf (flatten h))) ∧
+    ∀ (h' : Hist (Nat × Mat)) (s' : Agg.CovS), eval covCls h' = .ok s' → (∀ b ∈ flatten h', b.1 = d) →
+      (AggL.rowsOf (flatten h)).Perm (AggL.rowsOf (flatten h')) → covCls.out s = covCls.out s' :=
+  ⟨C07.cov_merge_tree d h s he hd, fun h' s' he' hd' hp => cov_any_history d h h' s s' he he' hd hd' hp⟩
+
+/-- Max: any history tree = any other history (e.g. one instance) holding the same elements in any order. -/
+theorem C01_merge_tree_Max (h h' : Hist (List Q)) (s s' : Option Q)
+    (he : eval maxCls h = .ok s) (he' : eval maxCls h' = .ok s')
+    (hp : (flatten h).flatten.Perm (flatten h').flatten) : maxCls.out s = maxCls.out s' :=
+  max_any_history h h' s s' he he' hp
+
+theorem C01_merge_tree_Min (h h' : Hist (List Q)) (s s' : Option Q)
+    (he : eval minCls h = .ok s) (he' : eval minCls h' = .ok s')
+    (hp : (flatten h).flatten.Perm (flatten h').flatten) : minCls.out s = minCls.out s' :=
+  min_any_history h h' s s' he he' hp
+
+/- Throughput, full statement (FALSE — the documented deviation):
+     `eval thrCls h = .ok s → eval thrCls (single (flatten h)) = .ok s' → thrCls.out s = thrCls.out s'`
+   `merge_state` adds the counts but keeps the MAXIMUM of the elapsed times ("the slowest shard"). -/
+
+/-- Throughput: the state of any history is (sum of the counts of all live updates, elapsed time of the
+    history), where the elapsed time adds on `update` and is the maximum over target and sources on
+    `merge_state` (`FamCache.thrElapsed`); `compute()` is their ratio (`0.0` before any time). -/
+theorem C01_merge_tree_Throughput_partial (h : Hist (Q × Q)) (s : Q × Q) (he : eval thrCls h = .ok s) :
+    s.1 = ((flatten h).map (·.1)).sum ∧ s.2 = thrElapsed h ∧
+    thrCls.out s = .ok (if thrElapsed h = 0 then 0 else ((flatten h).map (·.1)).sum / thrElapsed h) ∧
+    (∀ (t : Hist (Q × Q)) (srcs : List (Hist (Q × Q))),
+      Spec.Agg.IsMax (thrElapsed t :: srcs.map thrElapsed) (thrElapsed (.merge t srcs))) ∧
+    (∀ bs : List (Q × Q), thrElapsed (single bs) = (bs.map (·.2)).sum) :=
+  ⟨(thr_refines h s he).1, (thr_refines h s he).2, thr_out h s he, thrElapsed_merge_isMax, thrElapsed_single⟩
+
+/-- witness of the deviation: shards `(3 items, 2 s)` and `(5 items, 4 s)`: merged `8/4 = 2`, single `8/6`. -/
+theorem C01_Throughput_merge_witness :
+    ((eval thrCls (.merge (.update .fresh (3, 2)) [.update .fresh (5, 4)])).toOption.bind
+        fun s => (thrCls.out s).toOption) = some 2 ∧
+    ((eval thrCls (single [(3, 2), (5, 4)])).toOption.bind fun s => (thrCls.out s).toOption) = some (4 / 3) :=
+  thr_merge_deviation_witness
+
+/-! ### non-vacuity: 3-shard trees with an empty shard and a batch of size 1 -/
+
+/-- BinaryAUROC (one task, weights): shard `a` saw batches of 3 and 1 samples, shard `b` nothing, shard `c`
+    a batch of 2 and was reset before; merged pairwise into a fresh target.  The live samples are the six
+    samples in merge order, the labels are 0/1, and the stream `[b₃, b₁, b₂]` is another order of them — so
+    `compute()` of the tree is `binary_auroc` on that stream's concatenation. -/
+example :
+    let b₁ : List TaskSample := [([3/4], [1], [1]), ([1/4], [0], [2]), ([1/2], [1], [1])]
+    let b₂ : List TaskSample := [([1/2], [0], [1])]
+    let b₃ : List TaskSample := [([1], [1], [1]), ([0], [0], [3])]
+    let a := Hist.update (Hist.update .fresh b₁) b₂
+    let b : Hist (List TaskSample) := .fresh
+    let c := Hist.update (Hist.reset (Hist.update .fresh b₂)) b₃
+    let t := Hist.merge (Hist.merge .fresh [a, b]) [c]
+    ∃ s, eval (binaryAurocC 1).cls t = .ok s ∧ s = (true, b₁ ++ b₂ ++ b₃) ∧
+      (binaryAurocC 1).cls.out s = (binaryAurocC 1).fn (b₃ ++ b₁ ++ b₂) := by
+  intro b₁ b₂ b₃ a b c t
+  have he : eval (binaryAurocC 1).cls t = .ok (true, b₁ ++ b₂ ++ b₃) := eq_ok_of_toOption (by decide +kernel)
+  refine ⟨_, he, rfl, ?_⟩
+  have hf : flatten t = [b₁, b₂, b₃] := by decide +kernel
+  have := ((C01_merge_tree_BinaryAUROC 1).2 t _ he [b₃, b₁, b₂] (by decide) (by rw [hf]; decide)
+    (valid_catSamples _)
+    (by show (samplesOf (catSamples (α := TaskSample)) _).Perm (samplesOf catSamples _)
+        rw [samplesOf_catSamples, samplesOf_catSamples, hf]; decide +kernel)
+    (by show BinaryLabels 1 (samplesOf (catSamples (α := TaskSample)) _)
+        rw [samplesOf_catSamples, hf]; unfold BinaryLabels; decide +kernel)).1
+  simpa using this
+
+/-- MulticlassAUPRC (row samples), the same tree shape: live rows in merge order. -/
+example :
+    let b₁ : Mat × List Q := ([[1/2, 1/4], [1/4, 3/4], [1, 0]], [0, 1, 0])
+    let b₂ : Mat × List Q := ([[1/8, 1/2]], [1])
+    let b₃ : Mat × List Q := ([[3/4, 1/4], [0, 1]], [0, 1])
+    let a := Hist.update (Hist.update .fresh b₁) b₂
+    let b : Hist (Mat × List Q) := .fresh
+    let c := Hist.update (Hist.reset (Hist.update .fresh b₂)) b₃
+    let t := Hist.merge (Hist.merge .fresh [a, b]) [c]
+    flatten t = [b₁, b₂, b₃] ∧
+      (eval (multiclassAuprcC 2 .macro).cls t).toOption
+        = some (true, [([1/2, 1/4], 0), ([1/4, 3/4], 1), ([1, 0], 0), ([1/8, 1/2], 1), ([3/4, 1/4], 0), ([0, 1], 1)]) ∧
+      Valid (multiclassAuprcC 2 .macro).stat [b₃, b₁, b₂] := by
+  intro b₁ b₂ b₃ a b c t
+  exact ⟨by decide +kernel, by decide +kernel, valid_of_all' _ _ (by decide +kernel)⟩
+
+/-- Wasserstein1D: 3 shards, one empty, one update with a single sample per distribution. -/
+example :
+    let b₁ : WBatch := ⟨[1, 2], [5, 0], some [1, 2], none⟩
+    let b₂ : WBatch := ⟨[3], [1], none, some [2]⟩
+    let a := Hist.update .fresh b₁
+    let b : Hist WBatch := .fresh
+    let c := Hist.update .fresh b₂
+    let t := Hist.merge a [b, c]
+    (eval wassCls t).toOption = some ([(1, 1), (2, 2), (3, 1)], [(5, 1), (0, 1), (1, 2)]) ∧
+      WValid [b₂, b₁] ∧ (wState [b₂, b₁]).1.Perm (wState (flatten t)).1 ∧ (wState [b₂, b₁]).2.Perm (wState (flatten t)).2 := by
+  intro b₁ b₂ a b c t
+  exact ⟨by decide +kernel, FamStat.valid_of_all _ _ (by decide +kernel), by decide +kernel, by decide +kernel⟩
+
+/-- PSNR(data_range=None): 3 shards (one empty, one with a single element), merged flat into a fresh target. -/
+example :
+    let a : Hist (List Q × List Q) := .update .fresh ([1, 2, 3], [1, 2, 5])
+    let b : Hist (List Q × List Q) := .fresh
+    let c : Hist (List Q × List Q) := .update .fresh ([0], [4])
+    let t := Hist.merge .fresh [a, b, c]
+    ((eval (psnrCls none) t).toOption.bind fun s => ((psnrCls none).out s).toOption) = some (.val (16 / 5)) ∧
+      psnrTargets (flatten t) ≠ [] ∧
+      (Agg.psnrFn [1, 2, 3, 0] [1, 2, 5, 4] none).toOption = some (.val (16 / 5)) := by
+  intro a b c t
+  exact ⟨by decide +kernel, by decide +kernel, by decide +kernel⟩
+
+/-- Covariance: shards with one row, no row, two rows; merged pairwise. -/
+example :
+    let a : Hist (Nat × Mat) := .update .fresh (2, [[1, 2]])
+    let b : Hist (Nat × Mat) := .fresh
+    let c : Hist (Nat × Mat) := .update .fresh (2, [[3, 5], [0, 1]])
+    let t := Hist.merge (Hist.merge a [b]) [c]
+    (∀ x ∈ flatten t, x.1 = 2) ∧ AggL.rowsOf (flatten t) = [[1, 2], [3, 5], [0, 1]] ∧
+      ((eval covCls t).toOption.bind fun s => (covCls.out s).toOption)
+        = some ([4/3, 8/3], [[7/3, 19/6], [19/6, 13/3]]) := by
+  intro a b c t
+  exact ⟨by decide +kernel, by decide +kernel, by decide +kernel⟩
+
+/-- Max: 3 shards, one empty, one with a single element. -/
+example :
+    let t : Hist (List Q) := .merge (.update .fresh [1, 2]) [.fresh, .update .fresh [5]]
+    (eval maxCls t).toOption = some (some 5) ∧ (flatten t).flatten.Perm [5, 2, 1] := by
+  intro t
+  exact ⟨by decide +kernel, by decide +kernel⟩
+
+/-- AUC(reorder=True), two tasks: 3 shards (one empty, one holding a single point per task), abscissae
+    distinct per task: `compute()` of the tree is `auc` on the points in the other order. -/
+example :
+    let b₁ : List TaskPair := [([0, 1], [0, 1]), ([2, 3], [1, 1])]
+    let b₂ : List TaskPair := [([1, 0], [2, 0])]
+    let t : Hist (List TaskPair) := .merge (.update .fresh b₁) [.fresh, .update .fresh b₂]
+    ∃ s, eval (aucC true 2).cls t = .ok s ∧ (aucC true 2).cls.out s = (aucC true 2).fn (b₂ ++ b₁) := by
+  intro b₁ b₂ t
+  have he : eval (aucC true 2).cls t = .ok (true, b₁ ++ b₂) := eq_ok_of_toOption (by decide +kernel)
+  refine ⟨_, he, ?_⟩
+  have hf : flatten t = [b₁, b₂] := by decide +kernel
+  have := ((C01_merge_tree_AUC_reorder_partial 2) t _ he [b₂, b₁] (by decide) (by rw [hf]; decide)
+    (valid_catSamples _)
+    (by show (samplesOf (catSamples (α := TaskPair)) _).Perm (samplesOf catSamples _)
+        rw [samplesOf_catSamples, samplesOf_catSamples, hf]; decide +kernel)
+    (by show DistinctX 2 (samplesOf (catSamples (α := TaskPair)) _)
+        rw [samplesOf_catSamples, hf]; unfold DistinctX TiesEqual pairsAt; decide +kernel)).1
+  simpa using this
+
+/-- BinaryBinnedAUROC (duplicated threshold): 3 shards, one empty, one with a single sample, flat merge into
+    a fresh target; the value does not depend on the order of the cached samples. -/
+example :
+    let b₁ : List TaskPair := [([1/8], [0]), ([1/2], [1]), ([1/4], [0])]
+    let b₂ : List TaskPair := [([1], [1])]
+    let t : Hist (List TaskPair) := .merge .fresh [.update .fresh b₁, .fresh, .update .fresh b₂]
+    (eval (binaryBinnedAurocL [0, 1/4, 1/4, 1] 1).cls t).toOption = some (b₁ ++ b₂) ∧
+      ((binaryBinnedAurocL [0, 1/4, 1/4, 1] 1).outA (b₁ ++ b₂)).toOption = some [7/8] ∧
+      ((binaryBinnedAurocL [0, 1/4, 1/4, 1] 1).outA (b₂ ++ b₁)).toOption = some [7/8] := by
+  decide +kernel
+
+/-- Throughput: target with two updates, an empty shard and a slower shard: counts add (`3+1+5`), the
+    elapsed time is `max(2+1, 0, 4)`. -/
+example :
+    let t : Hist (Q × Q) := .merge (.update (.update .fresh (3, 2)) (1, 1)) [.fresh, .update .fresh (5, 4)]
+    (eval thrCls t).toOption = some (9, 4) ∧ thrElapsed t = 4 ∧ ((flatten t).map (·.1)).sum = 9 := by
   decide +kernel
 
 end TE.C01
